@@ -448,6 +448,44 @@ def oracle_ctor(cases, impl):
     return out
 
 
+# ---------------------------------------------------------------- C08 on histories: r counts the reversed steps
+def oracle_r_hist(cases, impl):
+    """C08, the part that needs no executor: `r` read after any request or finalize call equals the number of steps reversed
+    since the adjoint calculation began (reset at an EndReverse after which another pass is permitted); a finalize call
+    never changes it.  Judged on hist.* cases (the stream.* cases go through the monitor's M_r)."""
+    out = []
+    for line in cases:
+        if not line.startswith("S hist."):
+            continue
+        info = case_info(line)
+        tr = impl.get(info["cid"])
+        if not tr or tr[0].startswith("CTOR"):
+            continue
+        rr = 0
+        for i, l in enumerate(tr):
+            k, o, d = parse_line(l)
+            if k not in ("N", "F"):
+                continue
+            if k == "N":
+                if o.startswith("EXC"):
+                    break
+                if o.startswith("Y:"):
+                    try:
+                        a = parse_action(o[2:])
+                    except Exception:  # noqa
+                        break
+                    if a[0] == "R":
+                        rr += a[1] - a[2]
+                    elif a[0] == "ER" and d.get("x") != "T":
+                        rr = 0
+            r = obs_int(d.get("r"))
+            if r is not None and r != rr:
+                out.append(fail("C08", info, line, "r is %d after %s (line %d) although %d step(s) have been reversed in this adjoint calculation"
+                                % (r, "a finalize call" if k == "F" else o, i, rr), "r_hist"))
+                break
+    return out
+
+
 # ---------------------------------------------------------------- C02, pass structure read directly off the stream
 def oracle_passes(cases, impl):
     """C02 as stated, independent of the executor's exhaustion bookkeeping: after EndForward, every EndReverse closes an
@@ -554,6 +592,7 @@ def all_findings(cases, impl):
     f += oracle_ctor(cases, impl)
     f += oracle_values(cases, impl)
     f += oracle_passes(cases, impl)
+    f += oracle_r_hist(cases, impl)
     return f
 
 
